@@ -264,8 +264,32 @@ type detection struct {
 
 // detect: when does the client library get to look at the failure of attempt
 // a?  Immediately if a RecvMsg (or the unary Invoke) is in progress; otherwise
-// when the application starts its next SendMsg / RecvMsg.
-func detect(r *RPCObs, a *AttObs) detection {
+// when the application starts its next SendMsg / RecvMsg.  When a further
+// attempt was observed, the op that was in progress when that attempt reached
+// the server is the one that performed the retry (it may be a SendMsg that is
+// itself in the middle of an earlier retry): the backoff cannot have started
+// before that op started, nor before the failure existed.
+func detect(r *RPCObs, a, next *AttObs) detection {
+	if next != nil {
+		var perf *OpRec
+		for _, op := range r.Ops {
+			if op.StartSeq < next.HeadersSeq && (op.EndSeq == 0 || op.EndSeq > next.HeadersSeq) && (op.K == "R" || op.K == "I" || op.K == "S") {
+				if perf == nil || op.K != "S" {
+					perf = op
+				}
+			}
+		}
+		if perf != nil {
+			d := detection{found: true, at: a.ActionAt, refSeq: a.ActionSeq}
+			if perf.StartAt > d.at {
+				d.at = perf.StartAt
+			}
+			if perf.K == "S" || perf.StartSeq > d.refSeq {
+				d.refSeq = perf.StartSeq
+			}
+			return d
+		}
+	}
 	for _, op := range r.Ops {
 		if (op.K == "R" || op.K == "I") && op.StartSeq < a.ActionSeq && (op.EndSeq == 0 || op.EndSeq > a.ActionSeq) {
 			return detection{true, a.ActionAt, a.ActionSeq}
@@ -447,7 +471,11 @@ func judgeRPC(v *Verdict, sc *Scenario, rp *RPC, rid int, r *RPCObs, pol *Policy
 				kind = "noheaders"
 			}
 		}
-		d := detect(r, a)
+		var nextAtt *AttObs
+		if !last {
+			nextAtt = r.Atts[i+1]
+		}
+		d := detect(r, a, nextAtt)
 		// ---- decision ----
 		expect := no // is another attempt expected?
 		reason := ""
@@ -458,9 +486,11 @@ func judgeRPC(v *Verdict, sc *Scenario, rp *RPC, rid int, r *RPCObs, pol *Policy
 		switch kind {
 		case "ok":
 			reason = "success"
-			if r.FinalCode == codes.OK {
+			if r.FinalCode == codes.OK && r.FinishAt < r.DeadlineAt {
 				tok.success()
 			} else {
+				// the deadline passed before the application had read everything: the
+				// library may have ended the call with DEADLINE_EXCEEDED on its own
 				tok.maybeSuccess()
 			}
 			allowed[codes.OK] = true
